@@ -118,7 +118,7 @@ class Check:
                     free[0] += w
                     cv.notify_all()
         order = sorted(qs, key=lambda q: -q.weight)
-        with ThreadPoolExecutor(max_workers=jobs) as ex:
+        with ThreadPoolExecutor(max_workers=min(max(jobs, len(order)), 256)) as ex:     # waiting for permits costs nothing; the permits are the limit
             for q, res in ex.map(solve_w, order):
                 results.append((q, res))
         results.sort(key=lambda qr: qs.index(qr[0]))
